@@ -167,7 +167,9 @@ Definition osc_unprotect_resp_gen (dec : osc_aead_dec) (c : osc_sec) (req_token 
   | Some (_, ov) =>
       match osc_opt_decode ov with
       | None => None
-      | Some (piv, _, _) =>
+      | Some (piv, _, kid) =>
+          (* a kid is optional in a response; if present it has to name the peer that was asked *)
+          if negb (match kid with Some k => osc_bytes_eqb k (sc_rid c) | None => true end) then None else
           let nonce := match piv with
                        | [] => osc_nonce (sc_sid c) req_piv (sc_iv c)
                        | _ => osc_nonce (sc_rid c) piv (sc_iv c)
@@ -187,3 +189,13 @@ Definition osc_unprotect_resp_gen (dec : osc_aead_dec) (c : osc_sec) (req_token 
 
 Definition osc_unprotect_req := osc_unprotect_req_gen osc_ccm_dec.
 Definition osc_unprotect_resp := osc_unprotect_resp_gen osc_ccm_dec.
+
+(* what an endpoint does with a received message carrying an OSCORE option: request codes are
+   verified against the recipient context, anything else against the request it answers
+   ([assoc] = token and Partial IV of the outstanding request, if any) *)
+Definition osc_unprotect (c : osc_sec) (assoc : option (bytes * bytes)) (o : msg) : option msg :=
+  if osc_is_request (m_code o) then osc_unprotect_req c o
+  else match assoc with
+       | Some (tok, piv) => osc_unprotect_resp c tok piv o
+       | None => None
+       end.
